@@ -252,18 +252,44 @@ theorem litN3_lang (E : Ext) (x : Str) (c : Char) (r : Str) :
     litN3 E x none (some (c :: r)) = quoteEncode x ++ '@' :: c :: r := by
   simp [litN3, truthy]
 
+/-- the INF / NaN respelling of `_literal_n3` (`encoded.replace("inf", "INF").replace("Infinity", "INF")` for an infinite
+    `float(self)`, `encoded.replace("nan", "NaN")` for a NaN) leaves the quoted text as it is: the lexical form is not a
+    float infinity / NaN at all, or it is spelled the way the respelling spells it (`INF`, `-INF`, `NaN`, …) -/
+def RespellNoop (E : Ext) (x : Str) : Prop :=
+  match E.floatKind x with
+  | .inf => replaceSub "Infinity".toList "INF".toList (replaceSub "inf".toList "INF".toList (quoteEncode x)) = quoteEncode x
+  | .nan => replaceSub "nan".toList "NaN".toList (quoteEncode x) = quoteEncode x
+  | .other => True
+
+instance (E : Ext) (x : Str) : Decidable (RespellNoop E x) := by
+  unfold RespellNoop
+  cases E.floatKind x <;> exact inferInstance
+
+theorem respellNoop_of_other {E : Ext} {x : Str} (h : E.floatKind x = .other) : RespellNoop E x := by
+  simp [RespellNoop, h]
+
 theorem litN3_dt (E : Ext) (x : Str) (c : Char) (r : Str)
-    (hinf : (c :: r) ∈ Tables.infNanTypes → E.floatKind x = .other) :
+    (hinf : (c :: r) ∈ Tables.infNanTypes → RespellNoop E x) :
     litN3 E x (some (c :: r)) none = quoteEncode x ++ ('^' :: '^' :: '<' :: (c :: r) ++ ['>']) := by
   by_cases hm : (c :: r) ∈ Tables.infNanTypes
-  · simp [litN3, truthy, hm, hinf hm]
+  · have hn := hinf hm
+    simp only [RespellNoop] at hn
+    cases hk : E.floatKind x with
+    | inf => simp only [hk] at hn; simpa [litN3, truthy, hm, hk] using hn
+    | nan => simp only [hk] at hn; simpa [litN3, truthy, hm, hk] using hn
+    | other => simp [litN3, truthy, hm, hk]
   · simp [litN3, truthy, hm]
 
 theorem litN3Q_dt (E : Ext) (x : Str) (c : Char) (r : Str)
-    (hinf : (c :: r) ∈ Tables.infNanTypes → E.floatKind x = .other) (hq : E.qname (c :: r) ≠ []) :
+    (hinf : (c :: r) ∈ Tables.infNanTypes → RespellNoop E x) (hq : E.qname (c :: r) ≠ []) :
     litN3Q E x (some (c :: r)) none = quoteEncode x ++ ('^' :: '^' :: E.qname (c :: r)) := by
   by_cases hm : (c :: r) ∈ Tables.infNanTypes
-  · simp [litN3Q, truthy, hm, hinf hm, hq]
+  · have hn := hinf hm
+    simp only [RespellNoop] at hn
+    cases hk : E.floatKind x with
+    | inf => simp only [hk] at hn; simpa [litN3Q, truthy, hm, hk, hq] using hn
+    | nan => simp only [hk] at hn; simpa [litN3Q, truthy, hm, hk, hq] using hn
+    | other => simp [litN3Q, truthy, hm, hk, hq]
   · simp [litN3Q, truthy, hm, hq]
 
 /-! ### the forms that are not quoted -/
